@@ -832,10 +832,16 @@ class Loops:
             seq = itv.seq
             pos0 = itv.pos
 
-            def bind(s0, seq=seq, K=K, pos0=pos0):
+            def bind(s0, seq=seq, K=K, pos0=pos0, ref=ref):
                 res = []
                 for s1, v in self.elem_of(s0, seq, pos0 + K, e):
                     s1 = s1 if s1 is not s0 else s0.clone()
+                    if ref is not None:
+                        # `for x in it.by_ref()`: inside the body the underlying iterator has consumed element k
+                        I.write_loc(s1, ref.key, ref.path, IterV(seq, pos0 + K + 1))
+                    if isinstance(v, Opaque) and isinstance(elem_pat.get("t"), int):
+                        # an abstract sequence (custom iterator): its k-th item is a symbolic value of the item type
+                        v = I.symbolic(elem_pat["t"], (), (self.seq_key(seq), (pos0 + K).key()))
                     I.bind(s1, elem_pat, v)
                     res.extend(self.instantiate_forall(s1, seq, pos0 + K))
                 return res
